@@ -25,6 +25,7 @@
  *        contiguous or out of schema order  F lyd_find_sibling_val misses a present instance  L sibling links
  */
 #include "common.h"
+#include <unistd.h>
 #include "tree_data_sorted.c"
 #include "libyang.h"
 
@@ -324,7 +325,7 @@ run_rbs(struct vcase *c)
                 if (old != rbn) {
                     printf("!");
                 }
-                RBN_DNODE(old)->priv = NULL;        /* the data node stays allocated until the end of the case */
+                /* the data node stays allocated until the end of the case */
                 free(old);
                 printf("-");
             }
@@ -795,6 +796,8 @@ main(void)
         return 2;
     }
     while (vnext(&c)) {
+        /* a damaged tree can make the library loop for ever: the case then ends as CRASH(-14) */
+        alarm(10);
         if (!strcmp(c.f[0], "rbs") && (c.nf >= 3)) {
             run_rbs(&c);
         } else if (!strcmp(c.f[0], "lyds") && (c.nf >= 5)) {
@@ -803,6 +806,7 @@ main(void)
             printf("?");
         }
         VEND();
+        alarm(0);
     }
     ly_ctx_destroy(ctx);
     return 0;
